@@ -24,7 +24,11 @@ FineW  == {<<500 * Q + Q \div 2>>, <<500 * Q + Q \div 2, 500 * Q + Q \div 2, 500
            <<500 * Q, 500 * Q, 600 * Q>>, <<-(250 * Q) - Q \div 2>>, <<0>>, <<-(250 * Q) - Q \div 2, 0, 500 * Q>>}
 
 \* ---- the systematic stack-limit sweep (enumerated, fonts of two glyphs: .notdef + one sweep)
-SweepPlans == {<<0, 0>>, <<1, 1>>, <<23, 0>>, <<24, 0>>, <<25, 0>>, <<0, 24>>, <<24, 24>>, <<47, 1>>, <<48, 0>>, <<49, 0>>}
+\* <<nh, nv, wide>>: delta number `wide` of the 2(nh + nv) stem deltas (hstems first) is 40000
+WidePlans  == {<<1, 0, 2>>, <<1, 1, 4>>, <<12, 0, 1>>, <<23, 0, 46>>, <<24, 0, 2>>, <<24, 0, 47>>, <<24, 0, 48>>, <<0, 24, 48>>,
+               <<12, 12, 24>>, <<12, 12, 48>>, <<25, 0, 50>>, <<25, 0, 48>>, <<48, 0, 96>>, <<48, 0, 49>>}
+SweepPlans0 == {<<0, 0>>, <<1, 1>>, <<23, 0>>, <<24, 0>>, <<25, 0>>, <<0, 24>>, <<24, 24>>, <<47, 1>>, <<48, 0>>, <<49, 0>>}
+SweepPlans == SweepPlans0 \cup WidePlans
 SweepW     == {<<500, 600>>, <<500, 500>>}     \* with / without a width operand on the first operator
 SweepAs    == {5, 300}
 SweepBs    == {7}
@@ -42,6 +46,11 @@ WidthPlans  == {<<0, 0>>, <<1, 0>>}
 WidthSD     == {20 * Q}
 
 AllSweeps   == {"count", "delta", "value"}
+DeltaOnly   == {"delta"}
+\* ---- the number-range sweep on quarter units (GUnit = 4): exact in 16.16 and small enough for 32-bit integers
+QuarterD    == {0, 4, -4, 1, -3}
+QuarterSD   == {8}
+QuarterW    == {<<2000, 2400>>, <<2000, 2000>>}
 ValueOnly   == {"value"}
 AllPos      == 1..48
 SomePos     == {1, 2, 5, 6, 23, 24, 41, 42, 43, 44, 45, 47, 48}
